@@ -95,6 +95,8 @@ SiblingJoin == [BaseQ EXCEPT !.from = [k |-> "join", type |-> "inner", kw |-> ""
                                       on |-> CmpE("=", ColP(<<"x", "a">>), ColP(<<"y", "c">>))]]
 SiblingUnion == [k |-> "union", all |-> TRUE, limit |-> -1, offset |-> -1,
                  l |-> [BaseQ EXCEPT !.from = Derived(WithQ("c", "t", "a"), "x")], r |-> [BaseQ EXCEPT !.from = Derived(WithQ("d", "u", "c"), "x")]]
+NestedWith == [SelQ(<<I(A), I(G)>>, D, None) EXCEPT !.with = <<[name |-> "d", q |-> SelQ(<<I(A), I(G)>>, T, CmpE(">", A, LN(0)))]>>]
+UnionSideWith == [k |-> "union", all |-> TRUE, limit |-> -1, offset |-> -1, l |-> WithQ("c", "t", "a"), r |-> WithQ("d", "u", "c")]
 \* a CTE read twice: first through SELECT * ... ORDER BY (which must not reorder what the second read sees)
 OrderedThenFirst ==
     [SelQ(<<I(ColP(<<"x", "a">>))>>, Table(<<"d">>, "x"), InSub(ColP(<<"x", "a">>), [SelQ(<<I(A)>>, Table(<<"<-", "c">>, ""), None) EXCEPT !.limit = 1])) EXCEPT !.with =
@@ -112,6 +114,10 @@ Cases ==
   \cup {[fam |-> "path", q |-> PathQ(w)] : w \in {None, CmpE(">", A, LN(1)), CmpE(">", A, LN(100))}}
   \cup {[fam |-> "sub", q |-> s] : s \in Subs}
   \cup {[fam |-> "sibling", q |-> SiblingJoin], [fam |-> "sibling", q |-> SiblingUnion], [fam |-> "twice", q |-> OrderedThenFirst]}
+  \* a CTE whose body has a WITH of its own, read twice (the memo must land where the second reference looks);
+  \* a UNION whose sides carry their own WITH (there is no WITH in front of the UNION to replace them)
+  \cup {[fam |-> "twice", q |-> Twice(NestedWith)], [fam |-> "twice", q |-> TwiceAliased(NestedWith)], [fam |-> "sibling", q |-> UnionSideWith],
+        [fam |-> "sibling", q |-> [UnionSideWith EXCEPT !.all = FALSE]]}
 
 Init == /\ \E d \in Docs : \E c \in Cases : cs = [fam |-> c.fam, q |-> c.q, doc |-> d]
         /\ EngineInit
